@@ -174,7 +174,7 @@ func TestC17(t *testing.T) {
 	})
 }
 
-const ruleC15 = "generated IOS change scripts (real drc approve against sshdev) x a banner plan of 1-3 banners: command index x form in {inside the echo at character offset j, before the echo followed by a fresh prompt, after the echo, after the echo with an extra prompt} x kind in {0:02:00, 0:01:00} x optionally split into two write() calls; oracle: reload guard ordering from the transcript and metamorphic equality (exit status, accepted commands, final running and startup configuration) with the same run without banners; " +
+const ruleC15 = "generated IOS change scripts (real drc approve against sshdev) x a banner plan of 1-3 banners: command index x form in {inside the echo at character offset j, before the echo followed by a fresh prompt, after the echo, after the echo with an extra prompt} x kind in {0:02:00, 0:01:00} x optionally split into two write() calls x in one of three cases one change command (drawn position, or the second half of a two-command packet with the first banner on the first half) is rejected by the device; oracle: reload guard ordering from the transcript and metamorphic equality (exit status, accepted commands, final running and startup configuration) with the same run without banners; " +
 	"non-trivial = at least one banner lands on a change command; distinct = hash of scenario + banner plan"
 
 func TestC15(t *testing.T) {
@@ -199,7 +199,21 @@ func TestC15(t *testing.T) {
 			used[b.Chg] = true
 			sc.Banners = append(sc.Banners, b)
 		}
+		rel := ""
+		if rapid.IntRange(0, 2).Draw(rt, "withReject") == 0 {
+			chg := rapid.IntRange(0, 30).Draw(rt, "faultChg")
+			sc.Faults = []FaultSpec{{Kind: rapid.SampledFrom([]string{"error", "garbage"}).Draw(rt, "faultKind"), Chg: &chg}}
+			rel = rapid.SampledFrom([]string{"", "0", "-1", "-1j", "-1j"}).Draw(rt, "rel")
+			if rel == "-1j" {
+				for i := 0; i < 12 && len(joinedSecond(sc)) == 0; i++ {
+					front, banners, faults := sc.Front, sc.Banners, sc.Faults
+					sc = genBase(rt, "ios")
+					sc.Front, sc.Banners, sc.Faults = front, banners, faults
+				}
+			}
+		}
 		c := sc.Case("C15")
+		c.Params["rel"] = rel
 		props.Judge(rt, ev, oracleC15, c, func() any { return sc })
 	})
 }
